@@ -22,14 +22,14 @@ def SiftInv (d : Data) (first lo hi r : Int) : Prop :=
     vi d (first + c) ≤ vi d (first + p))
 
 /-- the heap child arithmetic dictated by the algorithm: `child = 2*root+1`, sibling `child+1` -/
-def Cfg.HeapOK (cf : Cfg) : Prop := cf.heapMul = 2 ∧ cf.heapAdd = 1 ∧ cf.heapSib = 1
+def Cfg.HeapOK (cf : Cfg) : Prop := cf.heapMul = 2 ∧ cf.heapAdd = 1 ∧ (cf.heapSib = 1 ∧ cf.heapSibIdx = 1)
 
 theorem pickChild_spec (cf : Cfg) (hk : cf.HeapOK) (d : Data) (first child hi : Int) (hf : 0 ≤ first) (hc0 : 0 ≤ child) (hc : child < hi)
     (hsz : first + hi ≤ d.size) :
     ∃ c, pickChild cf d first child hi = .ok c ∧ (c = child ∨ (c = child + 1 ∧ child + 1 < hi)) ∧
       vi d (first + child) ≤ vi d (first + c) ∧ (child + 1 < hi → vi d (first + child + 1) ≤ vi d (first + c)) := by
   unfold pickChild
-  rw [hk.2.2]
+  rw [hk.2.2.1, hk.2.2.2]
   by_cases h1 : child + 1 < hi
   · rw [if_pos h1, lt_total (by omega) (by omega) (by omega) (by omega)]
     by_cases h2 : vi d (first + child) < vi d (first + child + 1)
